@@ -25,6 +25,7 @@ def check(run, tier):
     r = rng("C01")
     progs = targeted.worklist_programs("evo") + targeted.worklist_programs("fluent")
     progs += targeted.round2_programs("evo") + targeted.round2_programs("fluent")
+    progs += targeted.config_programs("evo") + targeted.config_programs("fluent")
     progs += targeted.rounding_programs("evo", r) + targeted.rounding_programs("fluent", r)
     n = 150 if q else 3000
     for i in range(n):
